@@ -24,6 +24,10 @@ mod blockwise;
 mod c08;
 #[cfg(feature = "std")]
 mod c09;
+#[cfg(feature = "std")]
+mod c10;
+#[cfg(feature = "std")]
+mod c11;
 mod linkfmt;
 mod observe;
 
@@ -42,6 +46,8 @@ fn table() -> Vec<(&'static str, CheckFn)> {
     {
         t.push(("C08", c08::run));
         t.push(("C09", c09::run));
+        t.push(("C10", c10::run));
+        t.push(("C11", c11::run));
         t.push(("C13", c13::run));
     }
     t.push(("C14", observe::run_c14));
